@@ -131,4 +131,24 @@ theorem tie_calculate_base_fee (b minRaw consumed : Nat) (maxGas : Option Int) (
       rw [post_eq]
       generalize resOpt _ = r; cases r <;> rfl
 
+/-- **`feemarket Params.Validate` refuses no base fee for its size**: a present, non-negative base fee — of any magnitude — is
+accepted whenever the minimum gas price is.  `EndBlock` stores the next base fee through `SetBaseFee → SetParams → Validate` and
+panics on an error: with this, the stored value of `tie_calculate_base_fee` (never negative) can always be stored (C09 totality,
+C20: end-of-block processing never fails) -/
+theorem tie_feemarket_params_validate (p : types_Params) (hnil : p.BaseFee_IsNil = false) (hnn : 0 ≤ p.BaseFee) :
+    types_Params_Validate p = some p.MinGasPrice_call_validateMinGasPrice := by
+  unfold types_Params_Validate
+  have : ¬ p.BaseFee < 0 := by omega
+  simp [hnil, this]
+
+/-- and the only base fees it refuses are the absent and the negative ones -/
+theorem tie_feemarket_params_validate_refuses (p : types_Params) (h : p.BaseFee_IsNil = true ∨ p.BaseFee < 0) :
+    ∃ e, types_Params_Validate p = some (some e) := by
+  unfold types_Params_Validate
+  rcases h with h | h
+  · exact ⟨"base fee cannot be nil", by simp [h]⟩
+  · cases hn : p.BaseFee_IsNil
+    · exact ⟨"base fee cannot be negative: %s", by simp [h]⟩
+    · exact ⟨"base fee cannot be nil", by simp⟩
+
 end Evermint.Facts.TieFeeMarket
